@@ -11,7 +11,7 @@ Open Scope N_scope.
 
 Theorem C08g_link_make :
   forall a : list N,
-       option_map SmtString_s (M_SmtString_make a) =
+       option_map LiteralGen.SmtString_s (M_SmtString_make a) =
        (if (MAXLEN <? length a)%nat then None else Some a).
 Proof. exact link_make. Qed.
 Print Assumptions C08g_link_make.
@@ -78,7 +78,7 @@ Print Assumptions C08g_link_run.
 
 Theorem C08g_link_parse :
   forall text : list N,
-       option_map SmtString_s (M_fn_parse_smt_literal text) =
+       option_map LiteralGen.SmtString_s (M_fn_parse_smt_literal text) =
        match parse_smt_literal text with
        | Some w => if (MAXLEN <? length w)%nat then None else Some w
        | None => None
@@ -91,7 +91,7 @@ Print Assumptions C08g_link_parse.
 Theorem C08g_parse_is_ref :
   forall text : list N,
        (length (lit_parse_ref text) <= MAXLEN)%nat ->
-       option_map SmtString_s (M_fn_parse_smt_literal text) = Some (lit_parse_ref text).
+       option_map LiteralGen.SmtString_s (M_fn_parse_smt_literal text) = Some (lit_parse_ref text).
 Proof. exact g_parse_is_ref. Qed.
 Print Assumptions C08g_parse_is_ref.
 
@@ -102,14 +102,14 @@ Proof. exact g_parse_panics_iff. Qed.
 Print Assumptions C08g_parse_panics_iff.
 
 Theorem C08g_parse_denotes :
-  forall (text : list N) (s : SmtString),
-       M_fn_parse_smt_literal text = Some s -> LitDenote text (SmtString_s s).
+  forall (text : list N) (s : LiteralGen.SmtString),
+       M_fn_parse_smt_literal text = Some s -> LitDenote text (LiteralGen.SmtString_s s).
 Proof. exact g_parse_denotes. Qed.
 Print Assumptions C08g_parse_denotes.
 
 Theorem C08g_parse_good :
-  forall (text : list N) (s : SmtString),
-       M_fn_parse_smt_literal text = Some s -> goodw (SmtString_s s).
+  forall (text : list N) (s : LiteralGen.SmtString),
+       M_fn_parse_smt_literal text = Some s -> goodw (LiteralGen.SmtString_s s).
 Proof. exact g_parse_good. Qed.
 Print Assumptions C08g_parse_good.
 
@@ -140,6 +140,17 @@ Theorem C08g_link_char_to_smt :
   forall x : N, M_fn_char_to_smt x = Some (char_to_smt x).
 Proof. exact link_char_to_smt. Qed.
 Print Assumptions C08g_link_char_to_smt.
+
+Theorem C08g_link_fmt_loop :
+  forall l f : list N, disp_res (SmtString_fmt_loop1 l f) = Some (f ++ fmt_loop l).
+Proof. exact link_fmt_loop. Qed.
+Print Assumptions C08g_link_fmt_loop.
+
+Theorem C08g_link_display :
+  forall (s : SmtString) (f : list N),
+       M_SmtString_fmt s f = Some (f ++ smt_display (SmtString_s s), Ok tt).
+Proof. exact link_display. Qed.
+Print Assumptions C08g_link_display.
 
 (* ---- the C08 printing statements on the translated character printers ---- *)
 
@@ -176,3 +187,36 @@ Theorem C08g_example_printers :
        M_fn_smt_char_as_string 196607 = Some [92; 117; 123; 50; 102; 102; 102; 102; 125].
 Proof. exact g_example_printers. Qed.
 Print Assumptions C08g_example_printers.
+
+Theorem C08g_display_total :
+  forall (s : SmtString) (f : list N),
+       exists t : list N,
+         M_SmtString_fmt s f = Some (f ++ t, Ok tt) /\ t = smt_display (SmtString_s s).
+Proof. exact g_display_total. Qed.
+Print Assumptions C08g_display_total.
+
+Theorem C08g_display_ascii :
+  forall s : SmtString,
+       goodw (SmtString_s s) ->
+       exists t : list N,
+         M_SmtString_fmt s [] = Some (t, Ok tt) /\ Forall (fun c : N => 32 <= c <= 126) t.
+Proof. exact g_display_ascii. Qed.
+Print Assumptions C08g_display_ascii.
+
+Theorem C08g_display_injective :
+  forall (s1 s2 : SmtString) (t : list N),
+       goodw (SmtString_s s1) ->
+       goodw (SmtString_s s2) ->
+       M_SmtString_fmt s1 [] = Some (t, Ok tt) ->
+       M_SmtString_fmt s2 [] = Some (t, Ok tt) -> SmtString_s s1 = SmtString_s s2.
+Proof. exact g_display_injective. Qed.
+Print Assumptions C08g_display_injective.
+
+Theorem C08g_display_roundtrip :
+  forall s : SmtString,
+       goodw (SmtString_s s) ->
+       exists t : list N,
+         M_SmtString_fmt s [] = Some (t, Ok tt) /\
+         parse_smt_literal (lit_undouble (lit_body t)) = Some (SmtString_s s).
+Proof. exact g_display_roundtrip. Qed.
+Print Assumptions C08g_display_roundtrip.
